@@ -37,6 +37,12 @@ DEFECTS = [
     ('defined-later', ['run % mark @[LATER]@'], ('VALIDATION_ERROR',)),
     ('duplicate-definition', ["def string LATER = 'again'"], ('VALIDATION_ERROR',)),
     ('duplicate-builtin', ["def string EXACTLY_ACT = 'x'"], ('VALIDATION_ERROR',)),
+    # a definition that refers to the symbol it defines (the symbol is not defined "before" its own value)
+    ('self-reference-string', ['def string SELF1 = "x @[SELF1]@"'], ('VALIDATION_ERROR',)),
+    ('self-reference-list', ['def list SELF2 = a @[SELF2]@'], ('VALIDATION_ERROR',)),
+    ('self-reference-matcher', ['def line-matcher SELF3 = ! SELF3'], ('VALIDATION_ERROR',)),
+    ('self-reference-program', ['def program SELF4 = @ SELF4 arg'], ('VALIDATION_ERROR',)),
+    ('self-reference-path', ['def path SELF5 = @[SELF5]@/sub'], ('VALIDATION_ERROR',)),
     ('wrong-type-rel', ["def string STR = 'v'", "file -rel STR out.txt = 'x'"], ('VALIDATION_ERROR',)),
     ('wrong-type-matcher', ["def string STR2 = 'v'", "def text-matcher TM = STR2 && is-empty"], ('VALIDATION_ERROR',)),
     ('wrong-type-indirect-sibling', ['def string A0 = 7', 'def list L0 = x y', 'def string SIB = @[A0]@@[L0]@', 'timeout = @[SIB]@'], ('VALIDATION_ERROR',)),
